@@ -254,23 +254,151 @@ def coq_filelist():
     return sorted(files)
 
 
+def coq_deps():
+    """Direct dependencies between the project's .v files, from coqdep."""
+    files = coq_filelist()
+    rc, out = run(["coqdep", "-Q", ".", "F8"] + files, cwd=COQDIR, check=False, quiet=True)
+    deps = {f: [] for f in files}
+    for line in out.split("\n"):
+        if ".vo " not in line or ":" not in line:
+            continue
+        lhs, rhs = line.split(":", 1)
+        tg = lhs.split()
+        if not tg or not tg[0].endswith(".vo"):
+            continue
+        v = tg[0][:-1]
+        if v not in deps:
+            continue
+        for d in rhs.split():
+            if d.endswith(".vo") and d[:-1] in deps and d[:-1] != v:
+                deps[v].append(d[:-1])
+    return deps
+
+
+def _mtime(p):
+    try:
+        return os.stat(p).st_mtime_ns
+    except OSError:
+        return None
+
+
+def _fresh(v, deps):
+    vo = _mtime(os.path.join(COQDIR, v + "o"))
+    src = _mtime(os.path.join(COQDIR, v))
+    if vo is None or src is None or vo <= src:
+        return False
+    for d in deps[v]:
+        dm = _mtime(os.path.join(COQDIR, d + "o"))
+        if dm is None or dm > vo:
+            return False
+    return True
+
+
+def _compile_v(v, deps, timeout):
+    """coqc (full .vo) on one file under a per-file lock; the .vo is moved into place atomically,
+    and a file another process has just built is not built again."""
+    with Lock("vo-" + v.replace("/", "_")):
+        if _fresh(v, deps):
+            return True, ""
+        m = re.match(r"Extract/Extract_(\w+)\.v$", v)
+        if m:
+            os.makedirs(os.path.join(VERIF, "ocaml", "gen", m.group(1)), exist_ok=True)
+        tmpd = os.path.join(CACHE, "coqtmp", "%d-%s" % (os.getpid(), v.replace("/", "_")))
+        os.makedirs(tmpd, exist_ok=True)
+        base = os.path.basename(v) + "o"
+        t0 = time.time()
+        rc, out = run(["timeout", str(timeout), "coqc", "-q", "-Q", ".", "F8", "-w", "-all", "-o",
+                       os.path.join(tmpd, base), v], cwd=COQDIR, timeout=timeout + 30, check=False, quiet=True)
+        ok = rc == 0 and os.path.exists(os.path.join(tmpd, base))
+        if ok:
+            os.replace(os.path.join(tmpd, base), os.path.join(COQDIR, v + "o"))
+        else:
+            try:
+                os.remove(os.path.join(COQDIR, v + "o"))
+            except OSError:
+                pass
+        shutil.rmtree(tmpd, ignore_errors=True)
+        if time.time() - t0 > 20:
+            log("%.0fs coqc %s" % (time.time() - t0, v))
+        return ok, ("" if ok else "coqc %s failed (rc=%d):\n%s\n" % (v, rc, out[-3000:]))
+
+
 def coq_make(targets, timeout=3000, keep_going=True):
-    """Build .vo targets (relative to coq/) with a full coq_makefile build, under a lock.
-    Returns (ok, output)."""
-    with Lock("coq"):
-        files = coq_filelist()
-        for f in files:
-            m = re.match(r"Extract/Extract_(\w+)\.v$", f)
-            if m:
-                os.makedirs(os.path.join(VERIF, "ocaml", "gen", m.group(1)), exist_ok=True)
-        listing = "-Q . F8\n-arg -w -arg -all\n" + "\n".join(files) + "\n"
-        proj = os.path.join(COQDIR, "_CoqProject")
-        if not os.path.exists(proj) or open(proj).read() != listing or not os.path.exists(os.path.join(COQDIR, "Makefile")):
-            open(proj, "w").write(listing)
-            run(["coq_makefile", "-f", "_CoqProject", "-o", "Makefile"], cwd=COQDIR)
-        cmd = ["make", "-j16"] + (["-k"] if keep_going else []) + list(targets)
-        rc, out = run(["timeout", str(timeout)] + cmd, cwd=COQDIR, timeout=timeout + 30, check=False)
-        return rc == 0, out
+    """Full .vo build of the given targets (paths relative to coq/, ending in .vo) and of
+    everything they depend on, in dependency order, 16 jobs.  No global lock: every file is
+    compiled under its own lock and installed atomically, so concurrent checks never see a
+    half-written .vo and never wait for an unrelated long proof.  Returns (ok, log).
+    (`coq_makefile -f _CoqProject -o Makefile && make` builds the same thing from scratch; the
+    _CoqProject is kept current for that purpose.)"""
+    files = coq_filelist()
+    listing = "-Q . F8\n-arg -w -arg -all\n" + "\n".join(files) + "\n"
+    proj = os.path.join(COQDIR, "_CoqProject")
+    try:
+        cur = open(proj).read()
+    except OSError:
+        cur = None
+    if cur != listing:
+        tmp = proj + ".tmp%d" % os.getpid()
+        open(tmp, "w").write(listing)
+        os.replace(tmp, proj)
+    deps = coq_deps()
+    want = set()
+
+    def add(v):
+        if v in want or v not in deps:
+            return
+        want.add(v)
+        for d in deps[v]:
+            add(d)
+    missing = []
+    for t in targets:
+        v = t[:-1] if t.endswith(".vo") else t
+        if v not in deps:
+            missing.append(t)
+        add(v)
+    state = {}          # v -> True/False
+    logs = []
+    import threading
+    cv = threading.Condition()
+
+    def worker(v):
+        with cv:
+            while any(d not in state for d in deps[v]):
+                cv.wait()
+            bad = [d for d in deps[v] if not state[d]]
+        if bad:
+            ok, lg = False, "%s not built: dependency %s failed\n" % (v, bad[0])
+        else:
+            try:
+                ok, lg = _compile_v(v, deps, timeout)
+            except Exception as e:      # timeout etc.
+                ok, lg = False, "coqc %s: %s\n" % (v, e)
+        with cv:
+            state[v] = ok
+            if lg:
+                logs.append(lg)
+            cv.notify_all()
+
+    # threads: one per file (they mostly wait); at most 16 compile at once
+    sem = threading.Semaphore(16)
+
+    def guarded(v):
+        # wait for deps outside the semaphore, compile inside
+        with cv:
+            while any(d not in state for d in deps[v]):
+                cv.wait()
+        with sem:
+            worker(v)
+    ths = [threading.Thread(target=guarded, args=(v,)) for v in sorted(want)]
+    for t in ths:
+        t.start()
+    for t in ths:
+        t.join()
+    ok = all(state.get(v, False) for v in want) and not missing
+    out = "".join(logs)
+    if missing:
+        out += "unknown targets: %s\n" % " ".join(missing)
+    return ok, out
 
 
 def coqc_capture(vfile, timeout=900):
